@@ -168,6 +168,48 @@ def run_case(ck: Check, case: dict, tmp: str):
                 return
 
 
+def run_many_results(ck: Check, case: dict, tmp: str):
+    """ONE graph object answers path queries for many loaded results in a row, each result dropped before the next is
+    loaded (the way a script re-binds `r = BfsResult.load(p)`): every answer is judged by the true distances."""
+    import gc
+
+    gd = graphs.GDef.from_json(case["gd"])
+    cfg = case["cfg"]
+    layers = gd.brute_layers(cap=3000)
+    dist = {tuple(s): i for i, l in enumerate(layers) for s in l}
+    g = gd.graph(**cfg)
+    paths = []
+    for D in case["depths"]:
+        r = g.bfs(max_diameter=D, return_all_hashes=True)
+        f = os.path.join(tmp, f"ball{D}.h5")
+        r.save(f)
+        paths.append((f, len(r.layers_hashes) - 1))
+    del r
+    g2 = gd.graph(**cfg)
+    rng = __import__("random").Random(case["seed"])
+    for k in range(case["loads"]):
+        f, depth = rng.choice(paths)
+        r = BfsResult.load(f)  # re-binding drops the previous result
+        for _ in range(2):
+            q = list(rng.choice(layers[rng.randrange(len(layers))]))
+            d = dist[tuple(q)]
+            st, p = algos.call(g2.find_path_to, q, r)
+            ck.evaluations += 1
+            ok = st == "ok" and ((p is None) if d > depth else (p is not None and len(p) == d))
+            if ok and p is not None:
+                s_ = tuple(gd.central)
+                for i in p:
+                    s_ = gd.act(i, s_)
+                ok = s_ == tuple(q)
+            if not ok:
+                ck.violation("C18/loaded-path-query/many-results", "a graph that has answered queries for other loaded results answers wrongly for this one", {"case": case, "load_index": k, "ball_depth": depth, "query": q, "true_distance": d, "observed": str(p)[:200]})
+                return
+        if k % 3 == 0:
+            gc.collect()
+    ck.case(["many-results", gd.key(), cfg, case["depths"], case["loads"], case["seed"]], True, sample={"op": "one graph, many loaded results", "loads": case["loads"], "depths": case["depths"]})
+    ck.count("one graph answering for many loaded results")
+
+
 def gen_case(ck):
     rng = ck.rng
     for _ in range(300):
@@ -217,7 +259,7 @@ def main():
     try:
         if ck.replay:
             body = json.load(open(os.path.join(VERIF, ck.replay) if not os.path.isabs(ck.replay) else ck.replay))
-            ck.guard(run_case, ck, body["case"], tmp)
+            ck.guard(run_many_results if "loads" in body["case"] else run_case, ck, body["case"], tmp)
             ck.finish(rule="replay of one recorded case")
         ck.lean_obligations("CvProps.C18", THEOREMS)
         for case in json.load(open(os.path.join(VERIF, "harness", "corpus", "C18.json"))):
@@ -227,6 +269,20 @@ def main():
             if ck.enough():
                 break
             ck.guard(run_case, ck, gen_case(ck), tmp)
+        for _ in range(3 if not ck.thorough else 40):
+            if ck.enough():
+                break
+            for _try in range(50):
+                gd = graphs.gen_perm_def(ck.rng)
+                layers = gd.brute_layers(cap=1500)
+                if layers is not None and len(layers) >= 5:
+                    break
+            else:
+                continue
+            cfg = graphs.gen_cfg(ck.rng, gd)
+            cfg["random_seed"] = ck.rng.choice([0, 1, 5])
+            ecc = len(layers) - 1
+            ck.guard(run_many_results, ck, {"gd": gd.to_json(), "cfg": cfg, "depths": sorted({1, 2, ecc // 2, ecc - 1, ecc}), "loads": 60, "seed": ck.rng.randrange(10**6)}, tmp)
     finally:
         shutil.rmtree(tmp, ignore_errors=True)
     ck.assumptions = ["HDF5 / h5py are modelled by a key-value store, not verified; names with embedded NUL are outside h5py's string domain"]
